@@ -78,7 +78,12 @@ def gstore(ctx):
                         if tl in forward_taint(f, {c2.term["dest"]["local"]}):
                             n += 1
                             atoms = g.atoms_at(("t", c2.bb))
-                            if _excludes_stream(atoms):
+                            # ... and it is the stamp of a new STORAGE (a storage's times lie between the clock readings
+                            # around its creation): the branch must be one that storages take - a test for another
+                            # type (Root, which is never inserted) leaves every new storage with zero times
+                            if _excludes_stream(atoms) and any(re.search(r" is ObjType::(?!Storage)\w+$", a) for a in atoms) and not any(re.search(r" is ObjType::Storage$", a) for a in atoms):
+                                res.fail(Finding("R-GSTORE", "R-GSTORE/%s/creation-stamp-not-for-storages" % f.path, "the creation timestamp is taken on a branch that a new storage does not take (%s): storages are created with zero times instead of the clock reading" % "; ".join(a[-60:] for a in atoms if "ObjType::" in a)[:160], f, c2.term["span"]))
+                            elif _excludes_stream(atoms):
                                 res.ok({"function": f.path, "stamp": c2.name.split("::")[-1], "guard": [a[-80:] for a in atoms if "obj_type" in a][:1]}, nontrivial=True)
                             else:
                                 res.fail(Finding("R-GSTORE", "R-GSTORE/%s/creation-stamp-unguarded" % f.path, "a non-zero timestamp reaches DirEntry::new without a dominating obj_type test: new streams would carry timestamps", f, c2.term["span"]))
